@@ -184,8 +184,9 @@ class PropertyValue(cssutils.util._NewBase):
                 ok = False
                 break
 
-        self.wellformed = ok
         if ok:
+            # (a rejected text leaves the value, this flag included, as it was)
+            self.wellformed = True
             self._setSeq(seq)
         else:
             self._log.error(
